@@ -77,6 +77,8 @@ pub fn gen_eco(c: &mut Chooser) -> EcoState {
                 "quote \" backslash \\ <b>markup</b> \n".to_string(),
                 "Zürich 東京 𝄞".to_string(),
                 long_string(300),
+                // larger than any allocation hint / default buffer of the HTTP client
+                long_string(20_000),
             ])
         })
         .collect();
